@@ -11,7 +11,6 @@ package main
 import (
 	"fmt"
 	"os"
-	"strconv"
 	"strings"
 	"sync"
 	"time"
@@ -90,10 +89,7 @@ func main() {
 		return
 	}
 	run := vk.Start("C15")
-	batches := run.Pick(16, 1000)
-	if v, err := strconv.Atoi(os.Getenv("C15_CALIBRATE_BATCHES")); err == nil && v > 0 {
-		batches = v
-	}
+	batches := run.Pick(24, 1000)
 	args := batchArgs{Random: run.Pick(8, 24), MinActs: 30, MaxActs: 120, Size: 1, Clear: 1, Age: 1, Matrix: 1, Only: -1}
 	first := uint64(0)
 	replaying := false
